@@ -258,6 +258,11 @@ func (e *Engine) frameSpecOf(fr *Frame, ct *Contract) *frameSpec {
 					}
 					continue
 				}
+			case "key":
+				if lit, ok := n.Args[0].(*EStr); ok {
+					fs.wholeKeys[lit.V] = true
+				}
+				continue
 			case "deref":
 				continue
 			}
